@@ -15,7 +15,10 @@ def run(rep, tier, seed):
                        'the parent\'s table; lemmas over these contracts (P): each hook carries the invariant "every table entry is a child carrying that '
                        'name / identifier and every named child is an entry" from before an announcement to after it, refusals coincide with a real '
                        'duplicate among the announced siblings, sibling names are unique; obligations at every announcement point of the IR mutators (P): '
-                       'additions concern parentless elements, removals name the current parent, element data are not mid-change.  The history-level statement (tables agree with a scan of the children after every API call, for '
+                       'additions concern parentless elements, removals name the current parent, element data are not mid-change; HISTORY LEVEL (P, suite irns): '
+                       'every public IR mutator (67 functions incl. constructors, bulk removals, data edits, compound creators), executed with the hooks replaced by '
+                       'the abstract table effect that the `refinement` lemmas derive from the hook contracts, re-establishes Inv_NS at every normal and exceptional '
+                       'exit -- by induction the tables agree with a scan of the children after any history of these calls under one naming policy.  The rest of the statement (tables agree with a scan of the children after every API call, for '
                        'hand-built, parsed and cloned netlists, policy switches included) is decided by the bounded stand-in only.')
     failed = _pv.run_suite(rep, PID, 'ns', tier)
     # lemmas over the hook contracts: each hook carries "tables agree with a scan of the announced children" across its announcement
@@ -32,6 +35,9 @@ def run(rep, tier, seed):
     for o in lem:
         rep.p(o['name'], o['status'], o.get('backend') or 'z3', o['time_s'], 'lemma over the contracts of specs/ns.py', o.get('detail'))
         if o['status'] == 'failed': failed.append(('specs/ns.py lemmas', o))
+    # history level: Inv_NS at every exit (normal and exceptional) and every announcing loop head of every public IR mutator, with the
+    # hooks modelled by the abstract table effect that the `refinement` lemmas above derive from the hook contracts
+    failed += _pv.run_suite(rep, PID, 'irns', tier)
     # obligations at the announcement points of the IR mutators (same symbolic execution as C01/C02/C14/C19; cached per source hash)
     from props import _irp
     d = _irp.ir_proof(tier)
@@ -60,9 +66,9 @@ def run(rep, tier, seed):
         'policy switching (dictionary_set/delete/pop of ".NS", apply_namespace, drop_namespace, is_compliant work-lists) is outside the proved part: '
         'NamespaceManager.add is proved for a child that carries the same policy as its parent; an element\'s ".NS" names a registered policy',
         'WeakKeyDictionary is modelled as a dictionary (no collection of dead parents)',
-        'the composition argument itself is on paper (DESIGN.md 0.2/C10): hook contracts + lemmas + announcement obligations + C19 cover/in-vain + C14 frame '
-        'give the history-level invariant for single-policy histories; it is not machine-checked as one theorem, and create_* hooks / policy switches / clone '
-        'are covered by the bounded tier only']
+        'history level (suite irns): the create_* hooks of netlists / libraries / definitions start empty tables (not under contract: they run apply_namespace); '
+        'one naming policy per history (ned(P) fixed, the `.NS` adoption of add is not modelled); lookup through the registered fast lookup, clone and the readers are '
+        'covered by the bounded tier only; the refinement nt[P][cls][k] = tab(namespaces[P], type, k) identifies the two models (checked per hook by the `refinement` lemmas)']
 
 
 def replay(path):
